@@ -91,9 +91,9 @@ Lemma binop_sound l o r t x y z :
   has_type x l = true -> has_type y r = true -> dyn_bin o x y = Some z -> has_type z t = true.
 Proof.
   intros Hb He Hx Hy Hd.
-  destruct l as [[]|tl|kl vl|tsl|tsl|]; destruct r as [[]|tr|kr vr|tsr|tsr|]; destruct o;
-    vm_compute in Hb; try discriminate Hb; injection Hb as <-;
+  destruct l as [[]|[bl|tl1|kl1 vl1|tsl1|tsl1|]|kl vl|tsl|tsl|]; destruct r as [[]|[br|tr1|kr1 vr1|tsr1|tsr1|]|kr vr|tsr|tsr|]; destruct o;
     vm_compute in He; try discriminate He;
+    vm_compute in Hb; try discriminate Hb; injection Hb as <-;
     destruct x as [[]|xs|xks xvs|xts]; try discriminate Hx; destruct y as [[]|ys|yks yvs|yts]; try discriminate Hy;
     simpl in Hd; try discriminate Hd; injection Hd as <-; try reflexivity; try exact Hx; try exact Hy.
 Qed.
